@@ -81,6 +81,7 @@ def plan(tier, seed):
         jobs.append({'space': 'two-threads', 'tier': tier, 'scenario': i,
                      'weight': 300})
     jobs.append({'space': 'wide', 'tier': tier, 'weight': 300})
+    jobs.append({'space': 'registered', 'tier': tier, 'weight': 300})
     for i in range(8):
         jobs.append({'space': 'mappings', 'tier': tier, 'shard': i, 'of': 8,
                      'weight': 400})
@@ -105,6 +106,8 @@ def run(job, seed):
         return run_mappings(acc, enf, job)
     if space == 'wide':
         return run_wide(acc, enf, job)
+    if space == 'registered':
+        return run_registered(acc)
     if space == 'two-threads':
         return run_two_threads(acc, job)
     left, right, targets = checks()[job['check']]
@@ -149,6 +152,52 @@ def run(job, seed):
     if n != (T.count_mappings_upto(cmax)):
         raise core.HarnessError('tree count %d != recurrence' % n)
     acc.sample(space, {'check': text, 'creds': tree})
+    return acc.result()
+
+
+def run_registered(acc):
+    """The check reaches the enforcer as a REGISTERED default (the library
+    keeps a deep copy of it), as a deep copy of a whole rule store, and as a
+    pickled-and-restored check: it decides as the check parsed in place."""
+    import copy
+    import pickle
+    from oslo_policy import _parser, policy as P
+    trees = [{}, {'a': 'x'}, {'a': {'b': 'x'}}, {'a': [{'b': 'x'}, 'x']},
+             {'a': 1, 'b': True, 'c': None}, {'a': {'a': 'x', 'b': [1.5]}}]
+    for left, right, targets in checks():
+        text = '%s:%s' % (left, right)
+        conf = world.new_conf(policy_dirs=[])
+        enf_reg = P.Enforcer(conf)
+        enf_reg.register_default(P.RuleDefault('p', text))
+        enf_copy = world.bare_enforcer()
+        world.set_rules(enf_copy, {'p': text})
+        enf_copy.set_rules(copy.deepcopy(enf_copy.rules), use_conf=False)
+        enf_pick = world.bare_enforcer()
+        enf_pick.set_rules(P.Rules({'p': pickle.loads(pickle.dumps(
+            _parser.parse_rule(text)))}), use_conf=False)
+        acc.case('registered', True)
+        for tree in trees:
+            for target in targets:
+                exp = rleaf.generic_allows(left, right, target, tree)
+                for how, e in (('registered-default', enf_reg),
+                               ('deep-copied-store', enf_copy),
+                               ('pickled-check', enf_pick)):
+                    acc.ev()
+                    got = world.decide(e, 'p', dict(target),
+                                       copy.deepcopy(tree))
+                    if got != ('ok', exp):
+                        acc.violation(
+                            'registered|%s|%s' % (how, 'allows' if got ==
+                                                  ('ok', True) else 'denies'
+                                                  if got[0] == 'ok' else
+                                                  got[1]),
+                            '%s as a %s against %r target %r: got %r, '
+                            'reference %r' % (text, how, tree, target, got,
+                                              exp),
+                            {'check': text, 'creds': tree, 'target': target,
+                             'how': how}, exp, got, 'registered')
+                acc.outcome('allow' if exp else 'deny')
+    acc.sample('registered', {'trees': len(trees)})
     return acc.result()
 
 
